@@ -95,6 +95,15 @@ func deadlineRule(p *core.Prog, r *core.Report, sp deadlineSpec) {
 				if k != sp.field {
 					return
 				}
+				// zero-initialisation of a freshly allocated object (a composite literal):
+				// not a deadline, the object is not live yet
+				if fa, ok := st.Addr.(*ssa.FieldAddr); ok {
+					if _, fresh := fa.X.(*ssa.Alloc); fresh {
+						if c, ok := st.Val.(*ssa.Const); ok && c.Value != nil && c.Int64() == 0 {
+							return
+						}
+					}
+				}
 				key := siteKey(p, x.Ins)
 				val := core.Plain(x.Canon(st.Val).S)
 				lock := core.Plain(strings.TrimSuffix(strings.TrimPrefix(x.Canon(st.Addr).S, "&"), "."+sp.field.Field))
